@@ -506,7 +506,7 @@ def run_concur_job(job, scens, run_case, prop, files, alphabet=None):
             seen = [json.dumps(t, sort_keys=True, default=str) for t in scen["post"]]
             for o in alphabet:
                 k = json.dumps(list(o), sort_keys=True, default=str)
-                if k not in seen and not o[0].startswith("env-") and o[0] not in ("fault", "poke", "bad", "generic") and len(scen["post"]) < 14:
+                if k not in seen and not o[0].startswith("env-") and o[0] not in ("fault", "poke", "bad", "generic") and len(scen["post"]) < 24:
                     seen.append(k)
                     scen["post"].append(o)
     # quick: <= 1 preemption, offered at the first 2 executions of a line.  thorough: two passes - <= 1 preemption at the first
